@@ -15,10 +15,11 @@ CONSTANTS
   PrefRest = "t1"
   Stamps = {0, 2, 9, 999}
   MaxNow = 4
-  Shapes = {"ok", "short", "scalar", "badt", "nodata"}
+  Shapes = {"ok", "okq", "short", "scalar", "badt", "nodata"}
   LevelKinds = {"node", "module", "param"}
   Kinds = {"updateEvent", "updateItem"}
   Behs = {"ok", "oneshot", "raise"}
+  ErrBehs = {"raise"}
   InitDescs <- GenInit3
   Descs <- GenDescs3
   GIdents <- GIdentsQ
